@@ -209,6 +209,10 @@ def resumeStep (data : Bytes) (r : ByteRange) (body : Bytes) : ResumeOut × Byte
 def greaterThanPrefix (item pfx : Bytes) : Bool :=
   if item.length < pfx.length then decide (pfx < item) else decide (pfx < item.take pfx.length)
 
+/-- `lessThanPrefix`: the file store prunes a directory whose path satisfies this against the cursor or the prefix -/
+def lessThanPrefix (item pfx : Bytes) : Bool :=
+  if item.length < pfx.length then decide (item < pfx.take item.length) else decide (item < pfx)
+
 /-- position of the first occurrence of `d` in `s` -/
 def indexOf (d : Bytes) : Bytes → Option Nat
   | [] => if d.isEmpty then some 0 else none
